@@ -440,79 +440,93 @@ func paDataPrecedence(c *engine.Ctx) {
 				continue
 			}
 			for _, hintEt := range []int32{et, otherEtype(et)} {
-				for _, seq := range seqs {
-					var pas types.PADataSequence
-					for _, k := range seq {
-						switch k {
-						case paPWSalt:
-							pas = append(pas, types.PAData{PADataType: paPWSalt, PADataValue: []byte(sPW)})
-						case paInfo:
-							pas = append(pas, types.PAData{PADataType: paInfo, PADataValue: etypeInfo(hintEt, &sI)})
-						case paInfo2:
-							var pr []byte
+				for _, seq0 := range seqs {
+					// unrelated PA-data elements (types below, between and above the hint types) at every position must not matter
+					for _, unrelated := range unrelatedVariants(len(seq0)) {
+						seq := seq0
+						if aes && !withParams && len(unrelated) > 0 {
+							continue // default iteration counts are expensive; the interleavings run with explicit parameters and on des3/rc4
+						}
+						var pas types.PADataSequence
+						emit := func(pos int) {
+							for _, t := range unrelated[pos] {
+								pas = append(pas, types.PAData{PADataType: t, PADataValue: []byte{0x30, 0x00}})
+							}
+						}
+						for pos, k := range seq {
+							emit(pos)
+							switch k {
+							case paPWSalt:
+								pas = append(pas, types.PAData{PADataType: paPWSalt, PADataValue: []byte(sPW)})
+							case paInfo:
+								pas = append(pas, types.PAData{PADataType: paInfo, PADataValue: etypeInfo(hintEt, &sI)})
+							case paInfo2:
+								var pr []byte
+								if withParams {
+									pr = be32(7)
+								}
+								pas = append(pas, types.PAData{PADataType: paInfo2, PADataValue: etypeInfo2(hintEt, &sI2, pr)})
+							}
+						}
+						emit(len(seq))
+						has := func(k int32) bool {
+							for _, x := range seq {
+								if x == k {
+									return true
+								}
+							}
+							return false
+						}
+						// RFC 4120 5.2.7.5: ETYPE-INFO2 > ETYPE-INFO > PW-SALT > default
+						wantSalt, wantEt := defSalt, et
+						var wantParams []byte
+						switch {
+						case has(paInfo2):
+							wantSalt, wantEt = sI2, hintEt
 							if withParams {
-								pr = be32(7)
+								wantParams = be32(7)
 							}
-							pas = append(pas, types.PAData{PADataType: paInfo2, PADataValue: etypeInfo2(hintEt, &sI2, pr)})
+						case has(paInfo):
+							wantSalt, wantEt = sI, hintEt
+						case has(paPWSalt):
+							wantSalt = sPW
 						}
-					}
-					has := func(k int32) bool {
-						for _, x := range seq {
-							if x == k {
-								return true
+						if _, ok := rcrypto.Get(wantEt); !ok {
+							continue
+						}
+						if wantEt == rcrypto.DES3 || wantEt == rcrypto.RC4 {
+							wantParams = nil
+						}
+						cs := map[string]interface{}{"etype": et, "hint_etype": hintEt, "sequence": seq, "with_s2kparams": withParams, "unrelated_padata_at_positions": unrelated}
+						var key types.EncryptionKey
+						var err error
+						var gotEt int32
+						if pn := safely(func() {
+							k, e, er := crypto.GetKeyFromPassword("pa55word", cname, realm, et, pas)
+							key, err = k, er
+							if e != nil {
+								gotEt = e.GetETypeID()
 							}
+						}); pn != "" {
+							c.Violate("padata", fmt.Sprintf("padata:et%d:panic", et), map[string]interface{}{"panic": pn}, cs)
+							continue
 						}
-						return false
-					}
-					// RFC 4120 5.2.7.5: ETYPE-INFO2 > ETYPE-INFO > PW-SALT > default
-					wantSalt, wantEt := defSalt, et
-					var wantParams []byte
-					switch {
-					case has(paInfo2):
-						wantSalt, wantEt = sI2, hintEt
-						if withParams {
-							wantParams = be32(7)
+						c.Add("evaluations", 1)
+						want, rerr := rcrypto.StringToKey(wantEt, "pa55word", wantSalt, wantParams)
+						if rerr != nil {
+							engine.Fatal("reference: %v", rerr)
 						}
-					case has(paInfo):
-						wantSalt, wantEt = sI, hintEt
-					case has(paPWSalt):
-						wantSalt = sPW
-					}
-					if _, ok := rcrypto.Get(wantEt); !ok {
-						continue
-					}
-					if wantEt == rcrypto.DES3 || wantEt == rcrypto.RC4 {
-						wantParams = nil
-					}
-					cs := map[string]interface{}{"etype": et, "hint_etype": hintEt, "sequence": seq, "with_s2kparams": withParams}
-					var key types.EncryptionKey
-					var err error
-					var gotEt int32
-					if pn := safely(func() {
-						k, e, er := crypto.GetKeyFromPassword("pa55word", cname, realm, et, pas)
-						key, err = k, er
-						if e != nil {
-							gotEt = e.GetETypeID()
+						if err != nil || !bytes.Equal(key.KeyValue, want) {
+							used := whichSalt(et, hintEt, key.KeyValue, []string{defSalt, sPW, sI, sI2}, withParams)
+							c.Violate("padata", fmt.Sprintf("padata:precedence:%s", seqName(seq)), map[string]interface{}{"err": fmt.Sprint(err), "want_salt": wantSalt, "gokrb5_used": used, "want_etype": wantEt, "got_etype": gotEt}, cs)
+							continue
 						}
-					}); pn != "" {
-						c.Violate("padata", fmt.Sprintf("padata:et%d:panic", et), map[string]interface{}{"panic": pn}, cs)
-						continue
+						if gotEt != wantEt {
+							c.Violate("padata", fmt.Sprintf("padata:etype:%s", seqName(seq)), map[string]interface{}{"want_etype": wantEt, "got_etype": gotEt}, cs)
+							continue
+						}
+						c.Distinct(fmt.Sprintf("padata/%d/%d/%v/%s/%v", et, hintEt, withParams, seqName(seq), unrelated))
 					}
-					c.Add("evaluations", 1)
-					want, rerr := rcrypto.StringToKey(wantEt, "pa55word", wantSalt, wantParams)
-					if rerr != nil {
-						engine.Fatal("reference: %v", rerr)
-					}
-					if err != nil || !bytes.Equal(key.KeyValue, want) {
-						used := whichSalt(et, hintEt, key.KeyValue, []string{defSalt, sPW, sI, sI2}, withParams)
-						c.Violate("padata", fmt.Sprintf("padata:precedence:%s", seqName(seq)), map[string]interface{}{"err": fmt.Sprint(err), "want_salt": wantSalt, "gokrb5_used": used, "want_etype": wantEt, "got_etype": gotEt}, cs)
-						continue
-					}
-					if gotEt != wantEt {
-						c.Violate("padata", fmt.Sprintf("padata:etype:%s", seqName(seq)), map[string]interface{}{"want_etype": wantEt, "got_etype": gotEt}, cs)
-						continue
-					}
-					c.Distinct(fmt.Sprintf("padata/%d/%d/%v/%s", et, hintEt, withParams, seqName(seq)))
 				}
 			}
 		}
@@ -603,4 +617,19 @@ func checkUsable(c *engine.Ctx, et int32, p rcrypto.Profile, k types.EncryptionK
 		return
 	}
 	c.Distinct(fmt.Sprintf("genkey/%s/%d", short, et))
+}
+
+// unrelatedVariants returns, for a hint sequence of length n, the placements of
+// unrelated PA-data types: none; each of {2 (ENC-TIMESTAMP), 16 (PK-AS-REQ),
+// 133 (FX-COOKIE), 136 (FX-FAST)} at each single position 0..n; and all four
+// together at the front and at the back.
+func unrelatedVariants(n int) []map[int][]int32 {
+	out := []map[int][]int32{{}}
+	for _, t := range []int32{2, 16, 133, 136} {
+		for pos := 0; pos <= n; pos++ {
+			out = append(out, map[int][]int32{pos: {t}})
+		}
+	}
+	out = append(out, map[int][]int32{0: {136, 133, 16, 2}}, map[int][]int32{n: {2, 16, 133, 136}})
+	return out
 }
